@@ -49,6 +49,25 @@ func ruleOwnWrite(p *Prog, r *Reporter) {
 			for _, in := range b.Instrs {
 				var target ssa.Value
 				kind := ""
+				// a value with references parked in a package-level channel (a free list / pool of buffers):
+				// package-level mutable state like a map or a slice, written by a send
+				chanSend := func(ch, val ssa.Value, at ssa.Instruction) {
+					if ld, isLd := ch.(*ssa.UnOp); isLd && ld.Op == token.MUL {
+						if g, isG := ld.X.(*ssa.Global); isG && g.Pkg != nil && shortNames[g.Pkg.Pkg.Path()] != "" && hasRefs(val.Type(), 0) {
+							r.Bad(p.instrPos(at), name, "send on package variable "+g.Name(), "a value holding references is parked in the package-level channel "+g.Name()+" (a free list shared by every token, authorizer and goroutine): whoever receives it next writes storage that an earlier user may still hold")
+						}
+					}
+				}
+				switch x := in.(type) {
+				case *ssa.Send:
+					chanSend(x.Chan, x.X, x)
+				case *ssa.Select:
+					for _, st := range x.States {
+						if st.Dir == types.SendOnly && st.Send != nil {
+							chanSend(st.Chan, st.Send, x)
+						}
+					}
+				}
 				switch x := in.(type) {
 				case *ssa.Store:
 					target, kind = x.Addr, "store"
